@@ -48,11 +48,19 @@ def whyUnsafe (code : List Node) (endOk : Bool) (R : Array (List AState)) (pc : 
     | some s' => s!"successor pc={s'.pc} h={s'.h} frames={s'.fs.length} not in the explored set (state explosion or exploration cut off)"
     | none => "?"
 
-def cmdVerify (endOk : Bool) (unit : String) : String :=
+def cmdVerify (mode : String) (unit : String) : String :=
+  let endOk := mode != "0"
+  let isFrame := mode != "1"
   let instrs := (unit.splitOn ";").filter (· ≠ "")
   match resolveAll instrs with
   | .error e => "error " ++ e
-  | .ok code =>
+  | .ok code0 =>
+    -- a function unit starts with the frame's `this` slot directly below the operands (stack[sb]); the preamble may
+    -- read it with initStash/boxThis: modelled by one leading pseudo-instruction that pushes it (offsets are relative)
+    -- mode 2 (class field initialiser programs) runs to the end of the code with that slot still in place
+    let code1 := if isFrame then (⟨0, [(1, 1)], .plain⟩ : Node) :: code0 else code0
+    let code := if mode == "2" then code1 ++ [(⟨1, [(1, -1)], .plain⟩ : Node)] else code1
+    let instrs := if isFrame then "<frame-this>" :: instrs else instrs
     let R := explore code
     if verifyWith code endOk R then
       s!"ok states={R.foldl (fun acc l => acc + l.length) 0}"
@@ -220,7 +228,7 @@ def showOutcome : Outcome → String
 
 def step (line : String) : String :=
   match words line with
-  | "verify" :: e :: rest => cmdVerify (b01 e) (" ".intercalate rest)
+  | "verify" :: e :: rest => cmdVerify e (" ".intercalate rest)
   | "emit" :: s :: p :: toks => cmdEmit (b01 s) (b01 p) toks
   | ["obs", i, dpc, dsp] =>
     (match parseInt? dpc, parseInt? dsp with
